@@ -171,14 +171,15 @@ PROPS = {
     ),
     "C01": dict(
         level="other",
-        contracts=["contracts.options", "contracts.parse_html"],
+        contracts=["contracts.options", "contracts.parse_html", "contracts.warnings"],
         flow=["checks.flow_exc:run"],
         harness=True,
         explanation=(
             "Totality of the whole pipeline is NOT decidable by contracts on MyST alone (markdown-it, docutils transforms, "
             "Sphinx, Jinja and pygments are external).  What is decided: (1) PROVED (pyvc, all strings): the directive-option "
             "tokenizer raises nothing but TokenizeError and terminates (all of parsers/options.py, shared with C07), and no "
-            "handler of the HTML-to-AST parser can raise for any string argument (parse_html handlers, shared with C16); "
+            "handler of the HTML-to-AST parser can raise for any string argument (parse_html handlers, shared with C16), and the warning functions every report goes through "
+            "(_is_suppressed_warning, create_warning, DocutilsRenderer.create_warning - shared with C14) raise nothing for any suppress list; "
             "(2) PROVED modularly on the AST (one obligation per function, real exception hierarchy introspected): every "
             "mechanism the property names contains what its callees may raise - read_topmatter, merge_file_level, "
             "render_front_matter, _parse_directive_options, parse_directive_arguments/text, run_directive, html_to_nodes, "
@@ -187,7 +188,10 @@ PROPS = {
             "access: OSError|UnicodeError|ValueError|LookupError; option converters: ValueError|TypeError; Jinja: Exception; "
             "directive.run(): DirectiveError|MockingError); calls in neither table are assumed not to raise and counted.  "
             "(3) BOUNDED: generated documents, token soup, random valid configurations and include faults through "
-            "publish_doctree (docutils front end) - no exception may escape."
+            "publish_doctree (docutils front end) and the vocabulary through a Sphinx build - no exception may escape; one-factor grids "
+            "(every configuration field and front-matter key x YAML values of every type, every attribute key x value on every construct "
+            "that takes attributes, every registered docutils directive x argument x body shape, pairs of odd footnote / target labels, HTML "
+            "elements x attribute forms) through both front ends (sampled in the quick tier)."
         ),
         assumptions=ENC,
         trusted_base=["assumed raise-sets of PyYAML, docutils, Jinja2, pathlib (DESIGN §6)"],
